@@ -185,6 +185,33 @@ Fixpoint replay_from (p : prog) (c : cfg) (r : rstate) (os : list obs) (n : nat)
       end
   end.
 
+(* At a quiescent point of the implementation (just before the harness releases a write, and at
+   the end) every goroutine is blocked.  If the model, in the corresponding state, has an
+   activation that is not parked and whose next chunk prints something, the implementation is
+   blocked where the model says it can run: a task that should have started did not. *)
+Definition stuck_ok (p : prog) (c : cfg) (r : rstate) : bool :=
+  forallb (fun a =>
+             if is_parked r a || at_probe (rs r) a then true
+             else match advance chunk_fuel p c (rs r) a with
+                  | (_, Some _) => false
+                  | _ => true
+                  end)
+          (seq 0 (length (acts (rs r)))).
+
+Fixpoint eager_from (p : prog) (c : cfg) (r : rstate) (os : list obs) : bool :=
+  match os with
+  | [] => true
+  | o :: rest =>
+      (match o with ORel _ => stuck_ok p c r | _ => true end) &&
+      match replay_one p c r o with
+      | inl (Some r') => eager_from p c r' rest
+      | _ => true      (* the eager strategy lost track: judged by the search, not here *)
+      end
+  end.
+
+Definition eager_ok (p : prog) (c : cfg) (os : list obs) : bool :=
+  eager_from p c (closure 200 p c {| rs := init_state p; parked := [] |}) os.
+
 Definition replay (p : prog) (c : cfg) (os : list obs) : rstate * verdict :=
   replay_from p c (closure 200 p c {| rs := init_state p; parked := [] |}) os 0.
 
